@@ -1,40 +1,14 @@
-(* C15 - the reachable set of Model/ConnLife.v computed inside Coq (breadth-first search with a
-   visited set of state codes, fuel = number of levels) and the theorems over it.
+(* C15 - the reachable set of Model/ConnLife.v computed inside Coq and the theorems over it.
 
    Bounds of the instance: the peer delivers at most rx0 = 3 packets, the queue at most
-   msgs0 = 2 messages, channel capacity 1, search depth <= 400 levels (the search returns
-   None when the fuel does not suffice; `explored_some` states that it sufficed). *)
-From Coq Require Import List Arith Bool PArith MSets.MSetPositive Lia.
+   msgs0 = 2 messages, channel capacity 1, search depth <= fuel0 = 400 levels (the search
+   returns None when the fuel does not suffice; `explored_some` states that it sufficed).
+   Model of the code after the repairs 6670bb6 (readLoop) and b002260 (setError). *)
+From Coq Require Import List Arith Bool PArith Lia.
 Import ListNotations.
-From GM Require Import Model.ConnLife.
+From GM Require Import Model.ConnLife Proofs.FiniteSys.
 
-Module PS := PositiveSet.
-
-(* ---------------------------------------------------------------- the code is injective *)
-
-Lemma iter_xI_xO_inj n : forall m a b, Nat.iter n xI (xO a) = Nat.iter m xI (xO b) -> n = m /\ a = b.
-Proof.
-  induction n as [|n IH]; intros [|m] a b H; cbn in H.
-  - inversion H. auto.
-  - discriminate.
-  - discriminate.
-  - inversion H as [H']. apply IH in H' as [-> ->]. auto.
-Qed.
-
-Lemma iter_xI_xO_not_xH n a : Nat.iter n xI (xO a) <> xH.
-Proof. destruct n; cbn; discriminate. Qed.
-
-Lemma enc_inj : forall l1 l2, enc l1 = enc l2 -> l1 = l2.
-Proof.
-  induction l1 as [|n l1 IH]; intros [|m l2] H; cbn in H.
-  - reflexivity.
-  - symmetry in H. now apply iter_xI_xO_not_xH in H.
-  - now apply iter_xI_xO_not_xH in H.
-  - apply iter_xI_xO_inj in H as [-> H]. f_equal. now apply IH.
-Qed.
-
-Lemma b2n_inj b b' : Nat.b2n b = Nat.b2n b' -> b = b'.
-Proof. destruct b, b'; cbn; congruence. Qed.
+Definition code (s : st) : positive := enc (fields s).
 
 Lemma code_inj s s' : code s = code s' -> s = s'.
 Proof.
@@ -44,179 +18,169 @@ Proof.
   subst. reflexivity.
 Qed.
 
-(* ---------------------------------------------------------------- search *)
-
-Definition add_new (acc : PS.t * list st) (s : st) : PS.t * list st :=
-  let '(seen, fresh) := acc in
-  if PS.mem (code s) seen then acc else (PS.add (code s) seen, s :: fresh).
-
-Fixpoint bfs (fuel : nat) (frontier : list st) (seen : PS.t) (all : list st) : option (list st) :=
-  match fuel with
-  | 0 => match frontier with [] => Some all | _ => None end
-  | S f =>
-      match frontier with
-      | [] => Some all
-      | _ =>
-          let '(seen', fresh) := fold_left add_new (flat_map next frontier) (seen, []) in
-          bfs f fresh seen' (fresh ++ all)
-      end
-  end.
-
 Definition rx0 := 3.
 Definition msgs0 := 2.
 Definition init0 : st := init rx0 msgs0.
 Definition fuel0 := 400.
 
-Definition explored : option (list st) := bfs fuel0 [init0] (PS.singleton (code init0)) [init0].
-
+Definition explored : option (list st) := explore next code fuel0 init0.
 Definition reach_list : list st := match explored with Some l => l | None => [] end.
 
-Definition set_of (l : list st) : PS.t := fold_left (fun acc s => PS.add (code s) acc) l PS.empty.
+Definition stuckb (s : st) : bool := stuck next s.
 
-Definition reach_set : PS.t := set_of reach_list.
+(* where a run may end: everything exited and `closed` closed *)
+Definition good_endb (s : st) : bool := final s.
 
-(* the checks, all by computation over the finite list *)
-Definition closedb : bool :=
-  PS.mem (code init0) reach_set
-  && forallb (fun s => forallb (fun s' => PS.mem (code s') reach_set) (next s)) reach_list.
+(* `close` is closed exactly when the Once has completed *)
+Definition latch_inv (s : st) : bool := Bool.eqb (chClose s) (Nat.eqb (latch s) 2).
 
-Definition kf_any (s : st) : bool := kf_reader_blocked_on_in s || kf_once_blocked_on_out s.
+(* internalClose (close(closed)) only after every other goroutine has exited *)
+Definition closed_inv (s : st) : bool :=
+  negb (chClosed s)
+  || (Nat.eqb (pR s) R5 && Nat.eqb (pW s) W3 && (Nat.eqb (pP s) PN || Nat.eqb (pP s) P3)
+      && (Nat.eqb (pH s) HN || Nat.eqb (pH s) H4) && negb (sock s)).
 
-Definition no_stuckb : bool :=
-  forallb (fun s => negb (stuck s) || final s || kf_any s) reach_list.
-
-Definition measureb : bool :=
-  forallb (fun s => forallb (fun s' => Nat.ltb (measure s') (measure s)) (next s)) reach_list.
-
-(* at most one of the once-protected effects: `close` is closed only by the Once *)
-Definition latch_okb : bool :=
-  forallb (fun s => Bool.eqb (chClose s) (Nat.eqb (latch s) 2)) reach_list.
-
-Lemma explored_some : explored <> None.
-Proof. vm_compute. discriminate. Qed.
-
-Lemma closedb_ok : closedb = true.
+Lemma explored_some : is_some explored = true.
 Proof. vm_compute. reflexivity. Qed.
 
-Lemma no_stuckb_ok : no_stuckb = true.
+Lemma closedb_ok : closedb_of next code init0 reach_list = true.
 Proof. vm_compute. reflexivity. Qed.
 
-Lemma measureb_ok : measureb = true.
+Lemma no_stuckb_ok : no_stuckb_of next good_endb reach_list = true.
 Proof. vm_compute. reflexivity. Qed.
 
-Lemma latch_okb_ok : latch_okb = true.
+Lemma measureb_ok : measureb_of next measure reach_list = true.
 Proof. vm_compute. reflexivity. Qed.
 
-(* ---------------------------------------------------------------- from checks to statements *)
+Lemma latch_inv_ok : invb_of latch_inv reach_list = true.
+Proof. vm_compute. reflexivity. Qed.
 
-Inductive reachable : st -> Prop :=
-| reach_init : reachable init0
-| reach_step : forall s s', reachable s -> In s' (next s) -> reachable s'.
+Lemma closed_inv_ok : invb_of closed_inv reach_list = true.
+Proof. vm_compute. reflexivity. Qed.
 
-Lemma set_of_spec_gen l : forall acc p,
-  PS.mem p (fold_left (fun acc s => PS.add (code s) acc) l acc) = true ->
-  PS.mem p acc = true \/ In p (map code l).
-Proof.
-  induction l as [|s l IH]; intros acc p H; cbn in *; [auto|].
-  apply IH in H as [H|H]; [|auto].
-  apply PS.mem_spec in H. apply PS.add_spec in H as [H|H].
-  - right. left. now subst.
-  - left. now apply PS.mem_spec.
-Qed.
+Definition reachable : st -> Prop := reachable_from next init0.
 
-Lemma set_of_spec l p : PS.mem p (set_of l) = true -> In p (map code l).
-Proof.
-  intros H. apply set_of_spec_gen in H as [H|H]; [|exact H].
-  apply PS.mem_spec in H. now apply PS.empty_spec in H.
-Qed.
+Definition good_end (s : st) : Prop := final s = true.
 
-Lemma mem_reach s : PS.mem (code s) reach_set = true -> In s reach_list.
-Proof.
-  intros H. apply set_of_spec in H. apply in_map_iff in H as [s0 [E Hin]].
-  apply code_inj in E. now subst.
-Qed.
+Lemma good_endb_spec s : good_endb s = true -> good_end s.
+Proof. exact (fun H => H). Qed.
 
-(* every state reachable by ANY run is in the computed list *)
+(* every state reachable by any run is in the computed list *)
 Theorem reach_complete : forall s, reachable s -> In s reach_list.
-Proof.
-  pose proof closedb_ok as C. unfold closedb in C. apply andb_true_iff in C as [Ci Cs].
-  induction 1 as [|s s' _ IH Hin].
-  - now apply mem_reach.
-  - rewrite forallb_forall in Cs. specialize (Cs s IH). rewrite forallb_forall in Cs.
-    apply mem_reach. now apply Cs.
-Qed.
+Proof. exact (reach_complete_gen next code code_inj init0 reach_list closedb_ok). Qed.
 
-Lemma reach_list_closed s s' : In s reach_list -> In s' (next s) -> In s' reach_list.
+(* a state without enabled transition is the final state: no stuck non-final state *)
+Theorem stuck_classified : forall s, reachable s -> next s = [] -> good_end s.
 Proof.
-  pose proof closedb_ok as C. unfold closedb in C. apply andb_true_iff in C as [_ Cs].
-  intros Hs Hn. rewrite forallb_forall in Cs. specialize (Cs s Hs). rewrite forallb_forall in Cs.
-  apply mem_reach. now apply Cs.
-Qed.
-
-(* a state without enabled transition is final, or one of the two known blocked states *)
-Theorem stuck_classified : forall s, reachable s -> next s = [] ->
-  final s = true \/ kf_reader_blocked_on_in s = true \/ kf_once_blocked_on_out s = true.
-Proof.
-  intros s R Hn. apply reach_complete in R. pose proof no_stuckb_ok as N. unfold no_stuckb in N.
-  rewrite forallb_forall in N. specialize (N s R). unfold stuck in N. rewrite Hn in N. cbn in N.
-  apply orb_true_iff in N as [N|N]; [left; exact N|]. unfold kf_any in N.
-  apply orb_true_iff in N as [N|N]; auto.
+  intros s R Hn. apply good_endb_spec.
+  exact (stuck_classified_gen next code code_inj init0 reach_list closedb_ok good_endb no_stuckb_ok s R Hn).
 Qed.
 
 Theorem measure_decreases : forall s s', reachable s -> In s' (next s) -> measure s' < measure s.
+Proof. exact (measure_decreases_gen next code code_inj init0 reach_list closedb_ok measure measureb_ok). Qed.
+
+Lemma ends_in_weaken (P Q : st -> Prop) : (forall s, P s -> Q s) -> forall s, ends_in next P s -> ends_in next Q s.
 Proof.
-  intros s s' R Hn. apply reach_complete in R. pose proof measureb_ok as M. unfold measureb in M.
-  rewrite forallb_forall in M. specialize (M s R). rewrite forallb_forall in M.
-  specialize (M s' Hn). now apply Nat.ltb_lt in M.
+  intros PQ s H. induction H as [s Hn Hp | s Hn _ IH].
+  - apply ends_here; auto.
+  - apply ends_step; auto.
 Qed.
 
-(* every maximal run from s ends, and ends in a state satisfying P *)
-Inductive ends_in (P : st -> Prop) : st -> Prop :=
-| ends_here : forall s, next s = [] -> P s -> ends_in P s
-| ends_step : forall s, next s <> [] -> (forall s', In s' (next s) -> ends_in P s') -> ends_in P s.
-
-Definition good_end (s : st) : Prop :=
-  final s = true \/ kf_reader_blocked_on_in s = true \/ kf_once_blocked_on_out s = true.
-
-Theorem all_runs_end : forall s, reachable s -> ends_in good_end s.
+(* every maximal run, from every reachable state, is finite and ends in a good end state *)
+Theorem all_runs_end : forall s, reachable s -> ends_in next good_end s.
 Proof.
-  intros s. remember (measure s) as n eqn:E. revert s E.
-  induction n as [n IH] using lt_wf_ind. intros s E R.
-  destruct (next s) as [|x xs] eqn:Hn.
-  - apply ends_here; [exact Hn|]. now apply stuck_classified.
-  - apply ends_step; [rewrite Hn; discriminate|]. intros s' Hin.
-    apply (IH (measure s')).
-    + subst n. apply measure_decreases; [exact R|exact Hin].
-    + reflexivity.
-    + eapply reach_step; eassumption.
+  intros s R. eapply ends_in_weaken; [exact good_endb_spec|].
+  exact (all_runs_end_gen next code code_inj init0 reach_list closedb_ok measure measureb_ok good_endb no_stuckb_ok s R).
 Qed.
 
 (* a run has at most `measure init0` steps *)
 Theorem run_length_bounded : forall s, reachable s -> measure s <= measure init0.
-Proof.
-  induction 1 as [|s s' R IH Hin]; [lia|]. pose proof (measure_decreases s s' R Hin). lia.
-Qed.
+Proof. exact (run_length_bounded_gen next code code_inj init0 reach_list closedb_ok measure measureb_ok). Qed.
 
 (* `close` is closed exactly when the Once has completed: setError's once-semantics *)
 Theorem close_iff_once_done : forall s, reachable s -> chClose s = Nat.eqb (latch s) 2.
 Proof.
-  intros s R. apply reach_complete in R. pose proof latch_okb_ok as Lk. unfold latch_okb in Lk.
-  rewrite forallb_forall in Lk. specialize (Lk s R). now apply Bool.eqb_prop in Lk.
+  intros s R. pose proof (inv_gen next code code_inj init0 reach_list closedb_ok latch_inv latch_inv_ok s R) as H.
+  now apply Bool.eqb_prop in H.
 Qed.
+
+(* close(closed) happens only after all other goroutines of the connection have exited and
+   the socket has been closed *)
+Theorem closed_after_all_exited : forall s, reachable s -> closed_inv s = true.
+Proof. exact (inv_gen next code code_inj init0 reach_list closedb_ok closed_inv closed_inv_ok). Qed.
+
+(* ---------------------------------------------------------------- the full statement *)
+
+(* every maximal run from every reachable state is finite (at most `measure init0` = 84 steps)
+   and ends in the final state: all goroutines exited, `closed` closed *)
+Theorem conn_no_stuck :
+  forall s, reachable s -> ends_in next (fun s => final s = true) s /\ measure s <= measure init0.
+Proof. intros s R. split; [exact (all_runs_end s R) | exact (run_length_bounded s R)]. Qed.
+
+(* in particular from every reachable state in which `close` has been closed *)
+Corollary conn_no_stuck_after_close :
+  forall s, reachable s -> chClose s = true -> ends_in next (fun s => final s = true) s.
+Proof. intros s R _. exact (all_runs_end s R). Qed.
+
+Theorem conn_once_and_order :
+  forall s, reachable s -> chClose s = Nat.eqb (latch s) 2 /\ closed_inv s = true.
+Proof. intros s R. split; [exact (close_iff_once_done s R) | exact (closed_after_all_exited s R)]. Qed.
 
 (* ---------------------------------------------------------------- witnesses: explicit runs *)
 
-(* a run given by the index of the chosen successor at every step *)
-Fixpoint replay (choices : list nat) (s : st) : option st :=
-  match choices with
-  | [] => Some s
-  | c :: tl => match nth_error (next s) c with Some s' => replay tl s' | None => None end
-  end.
+(* the situations of the two repaired findings still ARISE - they are no longer blocked states.
+   [fields] order: pS pR pW pP pH inN inClosed outN close connected closed latch sock qclosed okc spawn rx msgs *)
 
-Lemma replay_reachable : forall choices s s', reachable s -> replay choices s = Some s' -> reachable s'.
+(* the connect phase times out, the peer sends two more packets: `in` is full when the reader
+   wants to hand over the second one; `close` is closed, so the packet is dropped *)
+Definition run_full_in : list nat := [0; 0; 1; 0; 1; 1; 1].
+
+(* a connected v5 client; the writer has failed on the socket and waits for setError, `out` is
+   full, the handler is about to call setError with a *codes.Error: the DISCONNECT is dropped *)
+Definition run_full_out : list nat := [1; 1; 1; 0; 0; 1; 1; 0; 0; 1; 0; 2; 3; 2; 6; 2].
+
+(* a clean run of a connected client to the final state *)
+Definition run_ok : list nat := [1; 1; 1; 0; 1; 3; 1; 1; 0; 1; 0; 1; 0; 2; 0; 1; 0; 0; 0; 0].
+
+Definition reaches (p : st -> bool) (choices : list nat) : bool :=
+  match replay next choices init0 with Some s => p s | None => false end.
+
+Lemma reaches_spec p choices : reaches p choices = true -> exists s, reachable s /\ p s = true.
 Proof.
-  induction choices as [|c tl IH]; intros s s' R H; cbn in H.
-  - inversion H. now subst.
-  - destruct (nth_error (next s) c) as [x|] eqn:E; [|discriminate].
-    eapply IH; [|exact H]. eapply reach_step; [exact R|]. eapply nth_error_In; exact E.
+  unfold reaches. destruct (replay next choices init0) as [s|] eqn:E; [|discriminate].
+  intros H. exists s. split; [|exact H]. eapply replay_reachable; [apply reach_init | exact E].
+Qed.
+
+Lemma run_full_in_ok :
+  reaches (fun s => reader_waits_on_full_in s && chClose s && negb (stuckb s)) run_full_in = true.
+Proof. vm_compute. reflexivity. Qed.
+
+Lemma run_full_out_ok :
+  reaches (fun s => Nat.eqb (pH s) H3q && Nat.eqb (outN s) cap && Nat.eqb (latch s) 0 && Nat.eqb (pW s) W2
+                    && negb (stuckb s)) run_full_out = true.
+Proof. vm_compute. reflexivity. Qed.
+
+Lemma run_ok_ok : reaches (fun s => final s && okc s && chClosed s) run_ok = true.
+Proof. vm_compute. reflexivity. Qed.
+
+(* non-vacuity *)
+Theorem former_blocked_states_reachable :
+  (exists s, reachable s /\ reader_waits_on_full_in s = true /\ chClose s = true /\ next s <> []) /\
+  (exists s, reachable s /\ pH s = H3q /\ outN s = cap /\ latch s = 0 /\ pW s = W2 /\ next s <> []).
+Proof.
+  split.
+  - destruct (reaches_spec _ _ run_full_in_ok) as [s [R H]].
+    apply andb_true_iff in H as [H Hs]. apply andb_true_iff in H as [H1 H2].
+    exists s. repeat split; try assumption. intro E. unfold stuckb, stuck in Hs. rewrite E in Hs. discriminate.
+  - destruct (reaches_spec _ _ run_full_out_ok) as [s [R H]].
+    apply andb_true_iff in H as [H Hs]. apply andb_true_iff in H as [H H4]. apply andb_true_iff in H as [H H3].
+    apply andb_true_iff in H as [H1 H2].
+    apply Nat.eqb_eq in H1. apply Nat.eqb_eq in H2. apply Nat.eqb_eq in H3. apply Nat.eqb_eq in H4.
+    exists s. repeat split; try assumption. intro E. unfold stuckb, stuck in Hs. rewrite E in Hs. discriminate.
+Qed.
+
+Theorem final_reachable : exists s, reachable s /\ final s = true /\ okc s = true.
+Proof.
+  destruct (reaches_spec _ _ run_ok_ok) as [s [R H]].
+  apply andb_true_iff in H as [H _]. apply andb_true_iff in H as [Hf Ho]. exists s. auto.
 Qed.
